@@ -220,8 +220,9 @@ func (m *FloodSub) execPublish(prevHopPeerID peer.ID, pubMsg *publishChMsg) {
 			continue
 		}
 
+		// skip sessions that were added but are not executing yet (ctx is set by Execute).
 		peer, ok := m.peers[pid]
-		if ok {
+		if ok && peer.ctx != nil {
 			peer.writePacket(pkt)
 		}
 	}
